@@ -234,11 +234,21 @@ Section Circ.
     do gs <- filterM is_small_rot (cgates c);
     build gs (if remove_qubits then None else Some (width c)).
 
-  (* dictionaries qubit -> list, as association lists *)
-  Definition lastq (m : list (Z * nat)) (q : Z) : option nat :=
-    (fix go (m : list (Z * nat)) : option nat :=
-       match m with [] => None | (a, b) :: r => if Z.eqb q a then Some b else go r end) m.
-  Definition setq (m : list (Z * nat)) (q : Z) (i : nat) : list (Z * nat) := (q, i) :: m.
+  (* ---- merge_rotations / remove_redundant_gates ----
+     Both passes scan the gates once and keep, per qubit, the list of the gates kept so far that act
+     on it (Python: gate_qubits[q], a list of (index, gate object)); they only ever look at its last
+     element.  The model keeps the list [kept] of the gates kept so far (Python: new_gates, resp. the
+     gates whose index is not in indices_to_remove) and computes "the last kept gate acting on q" from
+     it: [last_touch kept q] is its position in [kept].  The gate objects in gate_qubits[q] are the
+     objects of new_gates, so an in-place update of a kept gate is seen through both. *)
+  Fixpoint last_touch (kept : list pgate) (q : Z) : option nat :=
+    match kept with
+    | [] => None
+    | g :: r => match last_touch r q with
+                | Some i => Some (S i)
+                | None => if zmem q (gate_qubits g) then Some O else None
+                end
+    end.
 
   Definition nth_gate (l : list pgate) (i : nat) : option pgate := nth_error l i.
   Fixpoint set_nth (l : list pgate) (i : nat) (g : pgate) : list pgate :=
@@ -246,6 +256,12 @@ Section Circ.
     | [], _ => []
     | _ :: r, O => g :: r
     | x :: r, S k => x :: set_nth r k g
+    end.
+  Fixpoint del_nth (l : list pgate) (i : nat) : list pgate :=
+    match l, i with
+    | [], _ => []
+    | _ :: r, O => r
+    | x :: r, S k => x :: del_nth r k
     end.
 
   Definition same_site (g h : pgate) : bool :=
@@ -259,10 +275,46 @@ Section Circ.
     | _, _ => Err TypeError
     end.
 
-  (* merge_rotations: [cur] is the input gate list, updated in place by the source;
-     [last] maps a qubit to the index (in cur) of the last kept gate acting on it;
-     [kept] lists the indices appended to new_gates. *)
-  Definition merge_step (st : list pgate * list (Z * nat) * list nat) (gi : nat)
+  (* merge_rotations, one iteration of the loop: [kept] is new_gates (deep copies of the input gates,
+     the merged parameters accumulate in them) *)
+  Definition merge_step (kept : list pgate) (gate : pgate) : res (list pgate) :=
+    let qs := gate_qubits gate in
+    let keep := Ok (kept ++ [gate]) in
+    match mapM (fun q => match last_touch kept q with Some i => Ok i | None => Err KeyError end) qs with
+    | Err _ => keep                                  (* NoneGate in g_prevs: some qubit has no previous gate *)
+    | Ok [] => keep
+    | Ok (p0 :: ps) =>
+      match nth_gate kept p0 with
+      | None => Err IndexError
+      | Some gprev =>
+        (* all(gg == g_prevs[0] for gg in g_prevs): comparison by VALUE (Gate.__eq__) *)
+        if forallb (fun p => match nth_gate kept p with Some h => gate_eq h gprev | None => false end) ps
+        then
+          if smem (pname gate) (rot_merge T) && same_site gate gprev then
+            do p' <- param_add (pparam gprev) (pparam gate);
+            Ok (set_nth kept p0 (PGate (pname gprev) (ptarget gprev) (pcontrol gprev) p'
+                                       (pvar gprev || pvar gate)))
+          else keep
+        else keep
+      end
+    end.
+
+  Definition merge_core (gs : list pgate) : res (list pgate) :=
+    fold_left (fun acc g => do k <- acc; merge_step k g) gs (Ok []).
+
+  Definition merge_rotations_fn (c : circ) : res circ :=
+    do out <- merge_core (cgates c); build out None.
+
+  (* merge_rotations as originally written (defect, repaired by a fix: commit): the source added into
+     the gate objects of its INPUT.  Kept in the index-based form that tracks the input list [cur]:
+     [last] maps a qubit to the index (in cur) of the last kept gate acting on it; [kept] lists the
+     indices appended to new_gates.  Result: (input circuit after the call, result). *)
+  Definition lastq (m : list (Z * nat)) (q : Z) : option nat :=
+    (fix go (m : list (Z * nat)) : option nat :=
+       match m with [] => None | (a, b) :: r => if Z.eqb q a then Some b else go r end) m.
+  Definition setq (m : list (Z * nat)) (q : Z) (i : nat) : list (Z * nat) := (q, i) :: m.
+
+  Definition merge_step_asis (st : list pgate * list (Z * nat) * list nat) (gi : nat)
     : res (list pgate * list (Z * nat) * list nat) :=
     let '(cur, last, kept) := st in
     match nth_gate cur gi with
@@ -271,7 +323,7 @@ Section Circ.
       let qs := gate_qubits gate in
       let keep := Ok (cur, fold_left (fun m q => setq m q gi) qs last, kept ++ [gi]) in
       match mapM (fun q => match lastq last q with Some i => Ok i | None => Err KeyError end) qs with
-      | Err _ => keep                                  (* some qubit has no previous gate *)
+      | Err _ => keep
       | Ok [] => keep
       | Ok (p0 :: ps) =>
         match nth_gate cur p0 with
@@ -289,16 +341,14 @@ Section Circ.
       end
     end.
 
-  Definition merge_core (gs : list pgate) : res (list pgate * list pgate) :=
-    do st <- fold_left (fun acc gi => do s <- acc; merge_step s gi) (seq 0 (length gs)) (Ok (gs, [], []));
+  Definition merge_core_asis (gs : list pgate) : res (list pgate * list pgate) :=
+    do st <- fold_left (fun acc gi => do s <- acc; merge_step_asis s gi) (seq 0 (length gs)) (Ok (gs, [], []));
     let '(cur, _, kept) := st in
     do out <- mapM (fun i => match nth_gate cur i with Some g => Ok g | None => Err IndexError end) kept;
     Ok (cur, out).
 
-  (* merge_rotations as originally written: (input circuit after the call, result); the source
-     added into the gate objects of its input (defect, repaired by a fix: commit) *)
   Definition merge_rotations_asis (c : circ) : res (circ * circ) :=
-    do co <- merge_core (cgates c);
+    do co <- merge_core_asis (cgates c);
     let '(cur, out) := co in
     do r <- build out None;
     (* the input's _variational_gates list holds the same objects: those at the positions that
@@ -306,55 +356,39 @@ Section Circ.
     let vs := map snd (filter (fun og => pvar (fst og)) (combine (cgates c) cur)) in
     Ok (Circ cur (cnq c) (cidx c) (ccounts c) (cncounts c) vs, r).
 
-  Definition merge_rotations_fn (c : circ) : res circ :=
-    do co <- merge_core (cgates c); build (snd co) None.
-
-  (* remove_redundant_gates: stacks of gate indices per qubit *)
-  Definition stackq (m : list (Z * list nat)) (q : Z) : list nat :=
-    (fix go (m : list (Z * list nat)) : list nat :=
-       match m with [] => [] | (a, b) :: r => if Z.eqb q a then b else go r end) m.
-  Definition setstack (m : list (Z * list nat)) (q : Z) (s : list nat) : list (Z * list nat) := (q, s) :: m.
-
-  Definition cancels (gs : list pgate) (top : nat) (gate : pgate) : res bool :=
-    match nth_gate gs top with
+  (* remove_redundant_gates: gate_qubits[q] is used as a stack; [kept] = the gates seen so far whose
+     index is not in indices_to_remove.  "gate_qubits[q][-1][1].inverse() != gate" for the qubits in
+     order, stopping at the first that fails (an exception of inverse() propagates). *)
+  Definition cancels (kept : list pgate) (top : nat) (gate : pgate) : res bool :=
+    match nth_gate kept top with
     | None => Err IndexError
     | Some h => do hi <- gate_inverse h; Ok (gate_eq hi gate)
     end.
 
-  Fixpoint all_cancel (gs : list pgate) (m : list (Z * list nat)) (qs : list Z) (gate : pgate) : res bool :=
+  Fixpoint all_cancel (kept : list pgate) (qs : list Z) (gate : pgate) : res bool :=
     match qs with
     | [] => Ok true
-    | q :: r => match stackq m q with
-                | [] => Ok false
-                | top :: _ => do b <- cancels gs top gate; if b then all_cancel gs m r gate else Ok false
+    | q :: r => match last_touch kept q with
+                | None => Ok false
+                | Some top => do b <- cancels kept top gate; if b then all_cancel kept r gate else Ok false
                 end
     end.
 
-  Definition redundant_step (gs : list pgate) (st : list (Z * list nat) * list nat) (gi : nat)
-    : res (list (Z * list nat) * list nat) :=
-    let '(m, removed) := st in
-    match nth_gate gs gi with
-    | None => Err IndexError
-    | Some gate =>
-      let qs := gate_qubits gate in
-      do rm <- all_cancel gs m qs gate;
-      if rm then
-        match qs with
-        | [] => Err IndexError
-        | q0 :: _ => match stackq m q0 with
-                     | [] => Err IndexError
-                     | top :: _ => Ok (fold_left (fun m q => setstack m q (tl (stackq m q))) qs m,
-                                       gi :: top :: removed)
-                     end
-        end
-      else Ok (fold_left (fun m q => setstack m q (gi :: stackq m q)) qs m, removed)
-    end.
+  Definition redundant_step (kept : list pgate) (gate : pgate) : res (list pgate) :=
+    let qs := gate_qubits gate in
+    do rm <- all_cancel kept qs gate;
+    if rm then
+      match qs with
+      | [] => Err IndexError                             (* qubits[0] *)
+      | q0 :: _ => match last_touch kept q0 with
+                   | None => Err IndexError
+                   | Some top => Ok (del_nth kept top)   (* both gates go: the new one is not kept *)
+                   end
+      end
+    else Ok (kept ++ [gate]).
 
   Definition redundant_core (gs : list pgate) : res (list pgate) :=
-    do st <- fold_left (fun acc gi => do s <- acc; redundant_step gs s gi) (seq 0 (length gs)) (Ok ([], []));
-    let removed := snd st in
-    Ok (map snd (filter (fun ig => negb (existsb (Nat.eqb (fst ig)) removed))
-                        (combine (seq 0 (length gs)) gs))).
+    fold_left (fun acc g => do k <- acc; redundant_step k g) gs (Ok []).
 
   Definition remove_redundant_gates (c : circ) (remove_qubits : bool) : res circ :=
     do gs <- redundant_core (cgates c);
